@@ -8,6 +8,9 @@ import stogcases as sc
 from .c10 import keys
 
 LEAN = "PystogVerif.Props.C17"
+# theorems about the code generated from stog.py by tools/translate_stog.py (built when these methods translate)
+LEAN_GEN = "PystogVerif.Props.C10Gen"
+STOG_METHODS = ['apply_scales_and_offset', 'merge_data']
 ENTRIES = []
 RULE = ("all 2^4 present/absent subsets of the four leaf keys (Y.Scale, Y.Offset, Q[S(Q)-1].Y.Scale, Q[S(Q)-1].Y.Offset) and of the "
         "container keys (Merging, Y, Q[S(Q)-1], Q[S(Q)-1].Y) are enumerated by index; random values, 1-3 overlapping S(Q) datasets with Q>0; "
